@@ -15,7 +15,9 @@ class Unsupported(Exception):
 
 
 SAFE_METHODS = {'get', 'startswith', 'endswith', 'lower', 'upper', 'strip', 'items', 'keys', 'values', 'find', 'split',
-                'join', 'index', 'count', 'append', 'extend', 'translate', 'replace', 'isupper', 'islower', 'isalpha'}
+                'join', 'index', 'count', 'append', 'extend', 'translate', 'replace', 'isupper', 'islower', 'isalpha', 'isalnum', 'isalpha', 'isdigit', 'isdecimal', 'isnumeric', 'isspace', 'isascii', 'isprintable', 'isidentifier',
+                'islower', 'isupper', 'translate', 'partition', 'rpartition', 'splitlines', 'count', 'index', 'rfind', 'title',
+                'casefold', 'encode', 'zfill', 'ljust', 'rjust', 'center', 'removeprefix', 'removesuffix', 'format'}
 SAFE_RECEIVERS = (str, dict, tuple, list, frozenset)
 SAFE_BUILTINS = {'len': len, 'bool': bool, 'tuple': tuple, 'list': list, 'min': min, 'max': max, 'abs': abs, 'int': int,
                  'isinstance': isinstance, 'str': str, 'ord': ord, 'chr': chr, 'range': range, 'dict': dict,
